@@ -3,6 +3,7 @@
 against the Coq model."""
 import itertools
 from .. import common, impl, gen, tie, oracles, pymodel
+from ..common import cz
 
 
 def nontrivial_key(case, obs):
@@ -279,3 +280,31 @@ def infinity_tie_stream(ctx, n, name):
         show = dict(cases[i], vals=['inf' if v == float('inf') else v for v in cases[i]['vals']])
         ctx.tie_mismatch('compute with +inf pixels (model: +inf embedded as 2**200)', {k_: v_ for k_, v_ in show.items() if k_ != 'adj_table'},
                          observations[i], tie.model_compute_view(model_cases[i], name + '_dump'))
+
+
+def rounding_tie(ctx, n, name):
+    """Rounding.to_double (the conversion numpy applies when a 64-bit integer meets a double) against Python's
+    float(int), on integers around the powers of two from 2**52 to 2**64, both signs, and on halfway cases."""
+    rng = ctx.rng('rounding-tie')
+    terms, meta = [], []
+    for it in range(n):
+        e = rng.randint(52, 63)
+        kind = rng.random()
+        if kind < 0.5:
+            z = 2 ** e + rng.randint(-2 ** 12, 2 ** 12)
+        elif kind < 0.8:
+            z = rng.randint(2 ** 52, 2 ** 64 - 1)
+        else:
+            step = 2 ** max(0, e - 52)                    # spacing of doubles in [2**e, 2**(e+1))
+            z = 2 ** e + step * rng.randint(0, 2 ** 10) + step // 2      # exactly halfway (ties to even)
+        if rng.random() < 0.4:
+            z = -z
+        z = max(-2 ** 63, min(2 ** 64 - 1, z))
+        terms.append('(%s, %s)' % (cz(z), cz(int(float(z)))))
+        meta.append({'integer': z, 'float(integer)': int(float(z))})
+        ctx.count('rounding_cases')
+        ctx.case_done(None, ('rounding', z) if int(float(z)) != z else None)
+    mism, errs = common.run_coq_shards(name, tie.HEADER, terms, 'mismatches rounding_ok', shard=500, ctype='rounding_case')
+    ctx.errors.extend(errs)
+    for i in mism[:5]:
+        ctx.tie_mismatch('integer -> double conversion (Rounding.to_double vs float(int))', meta[i], meta[i]['float(integer)'], 'rounding_ok = false')
